@@ -1585,6 +1585,16 @@ class H2Connection:
         # convert them to unicode.
         headers = _decode_headers(self.decoder, frame.data)
 
+        if (self.config.client_side and
+                frame.stream_id not in self.streams and
+                not self._stream_id_is_outbound(frame.stream_id) and
+                frame.stream_id > self.highest_inbound_stream_id):
+            # A server only gets new streams by promising them first.
+            raise ProtocolError(
+                "Received HEADERS on stream %d, which was never promised" %
+                frame.stream_id
+            )
+
         events = self.state_machine.process_input(
             ConnectionInputs.RECV_HEADERS
         )
@@ -1632,8 +1642,7 @@ class H2Connection:
             # remote peer now believes exists.
             if (self._stream_closed_by(frame.stream_id) ==
                     StreamClosedBy.SEND_RST_STREAM):
-                f = RstStreamFrame(frame.promised_stream_id)
-                f.error_code = ErrorCodes.REFUSED_STREAM
+                f = self._refuse_pushed_stream(frame.promised_stream_id)
                 return [f], events
 
             raise ProtocolError("Attempted to push on closed stream.")
@@ -1656,8 +1665,7 @@ class H2Connection:
             # The parent stream was reset by us, so we presume that
             # PUSH_PROMISE was in flight when we reset the parent stream.
             # So we just reset the new stream.
-            f = RstStreamFrame(frame.promised_stream_id)
-            f.error_code = ErrorCodes.REFUSED_STREAM
+            f = self._refuse_pushed_stream(frame.promised_stream_id)
             return [f], events
 
         new_stream = self._begin_new_stream(
@@ -1667,6 +1675,23 @@ class H2Connection:
         new_stream.remotely_pushed(pushed_headers)
 
         return frames, events + stream_events
+
+    def _refuse_pushed_stream(self, promised_stream_id):
+        """
+        Refuse a stream the peer promised on a stream we have reset. The peer
+        may already have sent frames on the promised stream, so it is
+        remembered as a stream that we reset.
+        """
+        if (not self._stream_id_is_outbound(promised_stream_id) and
+                promised_stream_id > self.highest_inbound_stream_id):
+            self.highest_inbound_stream_id = promised_stream_id
+            self._closed_streams[promised_stream_id] = (
+                StreamClosedBy.SEND_RST_STREAM
+            )
+
+        f = RstStreamFrame(promised_stream_id)
+        f.error_code = ErrorCodes.REFUSED_STREAM
+        return f
 
     def _handle_data_on_closed_stream(self, events, exc, frame):
         # This stream is already closed - and yet we received a DATA frame.
